@@ -51,7 +51,7 @@ func hDoc(p string) []byte {
 }
 
 func hPatch(p string) []byte {
-	return []byte(`[{"op":"add","path":"/z","value":` + hDigit(p+"v") + `},{"op":"copy","from":"/b","path":"/y"},{"op":"test","path":"/l","value":[ 1 , null ]},{"op":"test","path":"/w","value":{ "k" : [ 1 ] }},{"op":"add","path":"/huge","value":1e400}]`)
+	return []byte(`[{"op":"add","path":"/z","value":` + hDigit(p+"v") + `},{"op":"copy","from":"/b","path":"/y"},{"op":"test","path":"/l","value":[ 1 , null ]},{"op":"test","path":"/w","value":{ "k" : [ 1 ] }},{"op":"add","path":"/huge","value":1e400},{"op":"add","path":"/nl","value":[1]},{"op":"add","path":"/nl/-","value":2},{"op":"add","path":"/no","value":{"x":1,"y":2}},{"op":"remove","path":"/no/y"},{"op":"replace","path":"/no/x","value":[]}]`)
 }
 
 func hMergePatch(p string) []byte {
